@@ -1,6 +1,7 @@
 import MetapypeModel.Model.Registry
 import MetapypeModel.Props.C12
 import MetapypeModel.Lemmas.RegistryPrune
+import MetapypeModel.Lemmas.ExpandIds
 /-
   C14 — the node registry tracks exactly the live nodes.
 -/
@@ -173,5 +174,69 @@ theorem C14_prune (L : Lexer) (T : Tables) (strict : Bool) (t : Tree) (R : Regis
 /-- the premises of `C14_prune` are satisfiable and the statement is not vacuous: a registered three-node tree with an unknown child -/
 example : ∃ t : Tree, t.ids.Nodup ∧ t.ids = ["a", "b", "c"] :=
   ⟨.mk "a" "x" none none none [] [] [] [.mk "b" "y" none none none [] [] [] [], .mk "c" "z" none none none [] [] [] []], by decide, by decide⟩
+
+/-- reference expansion and the registry (C14 ∘ C16): on a registered tree with pairwise distinct ids and an id supply that is
+    fresh for the registry, registering the copies and discarding every `references` subtree (one `delete_node_instance` each,
+    as references.expand does) never raises; afterwards exactly the copies have been added and exactly the nodes of the
+    discarded subtrees removed, every node of the expanded tree is registered and no discarded node is -/
+theorem C14_expand (u : Nat → String) (root t' : Tree) (s : Nat) (R : Registry)
+    (hsub : ∀ i ∈ root.ids, i ∈ R.keys) (hnd : root.ids.Nodup) (hfresh : ∀ k, s ≤ k → u k ∉ R.keys)
+    (h : expandT u root s = some t') :
+    ∃ R', discardTrees (R.addAll ((drawn u s (substT u (idsOf root) root s).2).map (fun i => (i, 0)))) (refTreesT root) = some R' ∧
+      (∀ k, k ∈ R'.keys ↔ ((k ∈ R.keys ∨ k ∈ drawn u s (substT u (idsOf root) root s).2) ∧ k ∉ refIdsT root)) ∧
+      (∀ k ∈ t'.ids, k ∈ R'.keys) ∧ (∀ k ∈ refIdsT root, k ∉ R'.keys) := by
+  have ht : t' = (substT u (idsOf root) root s).1 := by
+    unfold expandT at h
+    simp only at h
+    split at h
+    · cases h
+    · split at h
+      · cases h
+      · simp only [Option.some.injEq] at h; exact h.symm
+  subst ht
+  generalize hs2 : (substT u (idsOf root) root s).2 = s2
+  have hexact := fun x => substT_ids_exact u (idsOf root) x root s
+  rw [hs2] at hexact
+  have hle := fun x => refIdsT_le x root
+  have hcnt := fun x => List.nodup_iff_count.mp hnd x
+  have hdrawn_fresh : ∀ x ∈ drawn u s s2, x ∉ root.ids := by
+    intro x hx hr
+    obtain ⟨k, hk, rfl⟩ := mem_drawn u s s2 x hx
+    exact hfresh k hk (hsub _ hr)
+  have hkeys1 : ∀ k, k ∈ (R.addAll ((drawn u s s2).map (fun i => (i, 0)))).keys ↔ (k ∈ R.keys ∨ k ∈ drawn u s s2) := by
+    intro k
+    rw [C14_add]
+    simp [Function.comp_def]
+  have href_sub : ∀ i ∈ refIdsT root, i ∈ root.ids := by
+    intro i hi
+    have := hle i
+    have hp : 0 < (refIdsT root).count i := List.count_pos_iff.mpr hi
+    exact List.count_pos_iff.mp (by omega)
+  have href_nd : (refIdsT root).Nodup := by
+    rw [List.nodup_iff_count]; intro x; have := hle x; have := hcnt x; omega
+  obtain ⟨R', h1, h2⟩ := discardTrees_ok (refTreesT root) (R.addAll ((drawn u s s2).map (fun i => (i, 0))))
+    (by intro i hi
+        rw [show idsOfTrees (refTreesT root) = refIdsT root from (refIdsT_eq root).symm] at hi
+        exact (hkeys1 i).mpr (Or.inl (hsub i (href_sub i hi))))
+    (by rw [show idsOfTrees (refTreesT root) = refIdsT root from (refIdsT_eq root).symm]; exact href_nd)
+  rw [show idsOfTrees (refTreesT root) = refIdsT root from (refIdsT_eq root).symm] at h2
+  refine ⟨R', h1, ?_, ?_, ?_⟩
+  · intro k; rw [h2 k, hkeys1 k]
+  · intro k hk
+    rw [h2 k, hkeys1 k]
+    have hpos : 0 < (substT u (idsOf root) root s).1.ids.count k := List.count_pos_iff.mpr hk
+    have hx := hexact k
+    by_cases hr : k ∈ root.ids
+    · have hd0 : (drawn u s s2).count k = 0 := List.count_eq_zero.mpr (fun hd => hdrawn_fresh k hd hr)
+      have := hcnt k
+      refine ⟨Or.inl (hsub k hr), ?_⟩
+      intro href
+      have : 0 < (refIdsT root).count k := List.count_pos_iff.mpr href
+      omega
+    · have h0 : root.ids.count k = 0 := List.count_eq_zero.mpr hr
+      have hd : 0 < (drawn u s s2).count k := by omega
+      exact ⟨Or.inr (List.count_pos_iff.mp hd), fun href => hr (href_sub k href)⟩
+  · intro k hk hin
+    exact ((h2 k).mp hin).2 hk
 
 end Metapype
